@@ -97,7 +97,25 @@ func randAncillary(rng *core.RNG, max int, big bool) []imggen.PNGChunk {
 	var out []imggen.PNGChunk
 	n := rng.Intn(max + 1)
 	for i := 0; i < n; i++ {
-		switch rng.Intn(13) {
+		switch rng.Intn(14) {
+		case 13: // private ancillary chunks whose names differ from a chunk the loader handles only in the
+			// case of a letter (the case bits are part of the name: these are other chunks, and decoders
+			// skip them)
+			switch rng.Intn(6) {
+			case 0:
+				hdr := append(append(be32c(uint32(1+rng.Intn(5000))), be32c(uint32(1+rng.Intn(5000)))...), []byte{16, 2, 0, 0, 0}...)
+				out = append(out, imggen.PNGChunk{Type: []string{"ihDR", "ihDr", "iHDR", "ihdr"}[rng.Intn(4)], Data: hdr})
+			case 1:
+				out = append(out, imggen.PNGChunk{Type: []string{"idAT", "idat", "idAt"}[rng.Intn(3)], Data: rng.Bytes(rng.Intn(50))})
+			case 2:
+				out = append(out, imggen.PNGChunk{Type: []string{"ieND", "iend"}[rng.Intn(2)]})
+			case 3:
+				out = append(out, imggen.PNGChunk{Type: []string{"icCP", "iccp", "icCp"}[rng.Intn(3)], Data: append(append([]byte("other"), 0, 0), imggen.Deflate(rng.Bytes(140), 6)...)})
+			case 4:
+				out = append(out, imggen.PNGChunk{Type: []string{"plTE", "plte"}[rng.Intn(2)], Data: rng.Bytes(3 * (1 + rng.Intn(8)))})
+			case 5:
+				out = append(out, imggen.PNGChunk{Type: []string{"trNS", "exIf", "srGB"}[rng.Intn(3)], Data: rng.Bytes(1 + rng.Intn(6))})
+			}
 		case 0:
 			out = append(out, imggen.PNGChunk{Type: "gAMA", Data: []byte{0, 0, 0xb1, 0x8f}})
 		case 1:
@@ -315,6 +333,40 @@ func profileBytes(rng *core.RNG, n, kind int) []byte {
 	if n > 0 && b[0] == 0 && kind%3 == 0 {
 		b[n-1] = 1 // keep the final byte recognisable
 	}
+	// one payload in five carries a small complete image of another format near its start (a profile
+	// with a preview in a private tag, say): embedded bytes are opaque, and a loader that looks for
+	// format signatures anywhere but at the start of the file finds one here
+	if n >= 200 && rng.Intn(5) == 0 {
+		inner := nestedImage(rng)
+		if len(inner) < n {
+			off := rng.Intn(n - len(inner))
+			if off > 700 {
+				off = rng.Intn(700)
+			}
+			if kind%3 == 2 && off < 40 && string(b[36:40]) == "acsp" {
+				off = 40 + rng.Intn(88)
+				if off+len(inner) > n {
+					return b
+				}
+			}
+			copy(b[off:], inner)
+		}
+	}
+	return b
+}
+
+// nestedImage returns a small well-formed JPEG, PNG or WebP.
+func nestedImage(rng *core.RNG) []byte {
+	switch rng.Intn(4) {
+	case 0:
+		b, _ := pngSpecFor(uint32(1+rng.Intn(300)), uint32(1+rng.Intn(300)), 2, 8, 0, rng).Build()
+		return b
+	case 1:
+		b, _ := imggen.WebPSpec{Kind: "VP8L", W: uint32(1 + rng.Intn(300)), H: uint32(1 + rng.Intn(300)), Payload: rng.Bytes(4)}.Build()
+		return b
+	}
+	s := imggen.JPEGSpec{Precision: 8, W: 1 + rng.Intn(300), H: 1 + rng.Intn(300), Comps: imggen.StdComps(3, 1, 1), Entropy: []byte{1, 2, 3}}
+	b, _ := s.Build()
 	return b
 }
 
